@@ -10,6 +10,7 @@ import (
 	"encoding/json"
 	"flag"
 	"fmt"
+	"hash/fnv"
 	"io"
 	"math/rand"
 	"os"
@@ -215,6 +216,7 @@ func run(w *tr.Writer, input []byte, e *expect) (toks int) {
 		}
 	}
 	l := js.NewLexer(in)
+	reports := 0
 	for calls := 0; calls < 4*n+16; calls++ {
 		ev := tr.E{}
 		var tt js.TokenType
@@ -257,11 +259,13 @@ func run(w *tr.Writer, input []byte, e *expect) (toks int) {
 			ev["etext"] = firstLine(err.Error())
 		}
 		w.Ev("Tok", ev)
+		reports++
 		if isErr {
 			break
 		}
 		toks++
 	}
+	w.Ev("End", tr.E{"n": reports}) // the driver stopped: at the first error report (or when its budget ran out)
 	return
 }
 
@@ -306,7 +310,11 @@ type summary struct {
 	Samples    []interface{}  `json:"samples"`
 }
 
-func readCases(path string, sum *summary, fn func(c *scenario)) {
+// caseRng: the random choices for a case depend on the seed and the case alone, not on the order in which TLC's
+// workers wrote the cases.
+func caseRng(seed int64, h uint64) *rand.Rand { return rand.New(rand.NewSource(seed*1000003 ^ int64(h))) }
+
+func readCases(path string, sum *summary, fn func(c *scenario, h uint64)) {
 	seen := map[string]bool{}
 	err := tr.ReadCases(path, func(line int, raw []byte) {
 		var c scenario
@@ -332,7 +340,9 @@ func readCases(path string, sum *summary, fn func(c *scenario)) {
 				sum.Used[a]++
 			}
 		}
-		fn(&c)
+		hh := fnv.New64a()
+		hh.Write(raw)
+		fn(&c, hh.Sum64())
 	})
 	if err != nil {
 		fmt.Fprintln(os.Stderr, "jstok:", err)
@@ -356,12 +366,16 @@ func Replay(args []string) {
 	variants := fs.Int("variants", 1, "spellings per case")
 	mutevery := fs.Int("mutevery", 0, "mutate every n-th case (0: never)")
 	fs.Parse(args)
-	rng := rand.New(rand.NewSource(*seed))
 	w := tr.NewWriter(*out)
 	sum := summary{Suite: "jstok", Mode: "replay", Used: map[string]int{}, Unused: []string{}}
 	tid := 0
-	nth := 0
-	readCases(*cases, &sum, func(c *scenario) {
+	type sample struct {
+		h uint64
+		v interface{}
+	}
+	var samples []sample
+	readCases(*cases, &sum, func(c *scenario, h uint64) {
+		rng := caseRng(*seed, h)
 		var prev [][]byte
 		for v := 0; v < *variants; v++ {
 			input, e := concretise(c, rng)
@@ -387,12 +401,15 @@ func Replay(args []string) {
 			if sig >= 2 && toks >= 2 {
 				sum.Nontrivial++
 			}
-			if len(sum.Samples) < 4 && sum.Cases%997 == 3 {
-				sum.Samples = append(sum.Samples, map[string]interface{}{"units": e.Units, "input": string(input), "kinds": e.Ek})
+			if v == 0 && len(c.U) >= 3 && (len(samples) < 3 || h < samples[len(samples)-1].h) {
+				samples = append(samples, sample{h, map[string]interface{}{"units": e.Units, "input": string(input), "kinds": e.Ek}})
+				sort.Slice(samples, func(i, j int) bool { return samples[i].h < samples[j].h })
+				if len(samples) > 3 {
+					samples = samples[:3]
+				}
 			}
 		}
-		nth++
-		if *mutevery > 0 && nth%*mutevery == 0 {
+		if *mutevery > 0 && h%uint64(*mutevery) == 0 {
 			for k := 0; k < 3; k++ {
 				if m := mutate(prev[0], rng); m != nil {
 					tid++
@@ -405,6 +422,9 @@ func Replay(args []string) {
 		}
 	})
 	w.Close()
+	for _, x := range samples {
+		sum.Samples = append(sum.Samples, x.v)
+	}
 	sum.Traces, sum.Events = w.Traces, w.Events
 	json.NewEncoder(os.Stdout).Encode(sum)
 }
@@ -419,7 +439,6 @@ func Inputs(args []string) {
 	muts := fs.Int("muts", 2, "mutations per document")
 	every := fs.Int("every", 1, "take every n-th case")
 	fs.Parse(args)
-	rng := rand.New(rand.NewSource(*seed))
 	f, err := os.Create(*out)
 	if err != nil {
 		fmt.Fprintln(os.Stderr, err)
@@ -431,12 +450,11 @@ func Inputs(args []string) {
 		enc.Encode(map[string]interface{}{"lang": lang, "input": tr.Ints(b)})
 		sum.Executions++
 	}
-	nth := 0
-	readCases(*cases, &sum, func(c *scenario) {
-		nth++
-		if nth%*every != 0 {
+	readCases(*cases, &sum, func(c *scenario, h uint64) {
+		if h%uint64(*every) != 0 {
 			return
 		}
+		rng := caseRng(*seed, h)
 		input, _ := concretise(c, rng)
 		lang := "js.lex"
 		for _, p := range c.P {
